@@ -322,8 +322,8 @@ class CLexer(HandLexerBase):
         elif char == "\\":
             self.emit(char)
             return self.lex_c
-        else:  # pragma: no cover
-            raise NotImplementedError(char)
+        else:
+            self.error(f"Unexpected character {char!r}")
 
     def lex_identifier(self):
         id_chars = self.lower_letters + self.upper_letters + self.numbers + "_"
